@@ -41,7 +41,7 @@ ASSUMPTIONS = [
     "binary(use_stochastic_rounding=True) is outside the domain (inference path raises, see C08)",
     "inputs |x| <= 1e30 (2*max|x| must not overflow float32 in the 'auto' scale)",
 ]
-BUDGET_S = {"quick": 45, "thorough": 800}
+BUDGET_S = {"quick": 35, "thorough": 800}
 _CLS = ["quantized_bits", "quantized_linear", "quantized_relu", "quantized_po2",
         "quantized_relu_po2", "binary", "ternary", "stochastic_binary", "stochastic_ternary",
         "quantized_tanh", "quantized_sigmoid", "quantized_hswish", "quantized_ulaw", "bernoulli"]
@@ -97,7 +97,8 @@ def sig_base(cfg):
     fk = "na"
   return {"cls": cfg["cls"], "family": family(cfg), "alpha": ak,
           "ste": "nonste" if kw.get("use_ste", True) is False else "ste",
-          "f": fk, "phase": int(cfg.get("phase", 0))}
+          "f": fk, "phase": int(cfg.get("phase", 0)),
+          "sr": int(bool(kw.get("use_stochastic_rounding", False)))}
 
 
 def run_tape(cfg, x, r):
